@@ -57,17 +57,24 @@ func (x *Exec) specialCall(fr *Frame, st *State, ci ssa.CallInstruction, key str
 }
 
 func (x *Exec) checkFieldGuards(fr *Frame, st *State, structType types.Type, field int, base, v string) {
-	if len(x.db.FieldWrites) == 0 || x.mode == "lemma" {
-		return
-	}
 	stt, ok := structType.Underlying().(*types.Struct)
 	if !ok {
 		return
 	}
-	tk := typeKey(structType)
-	fname := stt.Field(field).Name()
+	x.checkAccessContracts(fr, st, "field", typeKey(structType), stt.Field(field).Name(), map[string]specVal{
+		"v":    {term: v, typ: stt.Field(field).Type()},
+		"base": {term: base, typ: types.NewPointer(structType)},
+	})
+}
+
+// checkAccessContracts emits the obligations of fieldwrite / elemwrite / mapaccess contracts at a
+// store or map access of the function being executed.
+func (x *Exec) checkAccessContracts(fr *Frame, st *State, kind, tk, fname string, bind map[string]specVal) {
+	if len(x.db.FieldWrites) == 0 || x.mode == "lemma" {
+		return
+	}
 	for _, fw := range x.db.FieldWrites {
-		if fw.Type != tk || fw.Field != fname || !x.wantObl(fw.Props) {
+		if fw.Kind != kind || fw.Type != tk || fw.Field != fname || !x.wantObl(fw.Props) {
 			continue
 		}
 		site := fr.fn
@@ -75,17 +82,8 @@ func (x *Exec) checkFieldGuards(fr *Frame, st *State, structType types.Type, fie
 		if f := outermost(site); f.Pkg != nil {
 			pkgPath = f.Pkg.Pkg.Path()
 		}
-		if len(fw.In) > 0 {
-			ok := false
-			for _, in := range fw.In {
-				in = expandModRel(in)
-				if pkgPath == in || (strings.HasSuffix(in, "/...") && strings.HasPrefix(pkgPath+"/", in[:len(in)-3])) {
-					ok = true
-				}
-			}
-			if !ok {
-				continue
-			}
+		if !fieldWriteInScope(fw, pkgPath) {
+			continue
 		}
 		if fw.InFunc != nil && !fw.InFunc.MatchString(shortFn(site)) {
 			continue
@@ -93,13 +91,16 @@ func (x *Exec) checkFieldGuards(fr *Frame, st *State, structType types.Type, fie
 		env := &SpecEnv{x: x, names: map[string]specVal{}, st: st, old: fr.entryOrSelf(st)}
 		env.pkg = x.pkgOfContract(fw.Pkg, site)
 		env.callerFrame = fr
-		env.names["v"] = specVal{term: v, typ: stt.Field(field).Type()}
-		env.names["base"] = specVal{term: base, typ: types.NewPointer(structType)}
+		env.fr = fr
+		for k, v := range bind {
+			env.names[k] = v
+		}
 		x.fwCount[fw.Name+"@"+shortFn(site)]++
 		n := x.fwCount[fw.Name+"@"+shortFn(site)]
+		what := map[string]string{"field": "store", "elem": "store", "map": "access"}[kind]
 		for _, r := range fw.Requires {
 			goal := x.evalBool(env, r.Expr)
-			name := fmt.Sprintf("%s/requires:%s@store:%s#%d", shortFn(site), r.Label, fw.Name, n)
+			name := fmt.Sprintf("%s/requires:%s@%s:%s#%d", shortFn(site), r.Label, what, fw.Name, n)
 			if site != x.top && x.top != nil && x.top.Blocks != nil {
 				name += "/via:" + shortFn(x.top)
 			}
